@@ -89,6 +89,7 @@ func (p *Pool[K, V]) Get(ctx context.Context, key K,
 //
 
 func (p *Pool[K, V]) removeEntry(ent *entry[K, V]) {
+	drpcdebug.Point("pool.remove.beforeLock", p)
 	p.mu.Lock()
 	defer p.mu.Unlock()
 
@@ -200,7 +201,9 @@ func (p *Pool[K, V]) Put(key K, val V) {
 
 	if p.opts.Expiration > 0 {
 		ent.exp = time.AfterFunc(p.opts.Expiration, func() {
+			drpcdebug.Point("pool.expire.fired", p)
 			_ = val.Close()
+			drpcdebug.Point("pool.expire.closed", p)
 			p.removeEntry(ent)
 		})
 	}
